@@ -300,13 +300,334 @@ async fn eval_source(env: &mut VEnv, source: &Source) -> i32 {
     env.exit_status.0
 }
 
+// ------------------------------------------------------------------------------------------
+// the program language (mirrored in /verif/lean/YashModel/Proc/Prog.lean and Main.lean)
+
+fn render_member(t: &str) -> Option<String> {
+    let (h, r) = t.split_at(1);
+    let num = || r.parse::<u32>().ok().filter(|n| *n < 256);
+    Some(match h {
+        "c" if r.is_empty() => "cat".to_string(),
+        "s" => format!("st {}", num()?),
+        "x" => format!("exit {}", num()?),
+        "g" => format!("( exit {} )", num()?),
+        "q" => format!("y=$( exit {} )", num()?),
+        "e" if !r.is_empty() && r.chars().all(|c| c.is_ascii_lowercase()) => format!("echo {r}"),
+        _ => return None,
+    })
+}
+
+fn render_members(ms: &[&str]) -> Option<String> {
+    if ms.is_empty() {
+        return None;
+    }
+    let v: Option<Vec<String>> = ms.iter().map(|m| render_member(m)).collect();
+    Some(v?.join(" | "))
+}
+
+/// shell text of one statement; `nasync` counts the asynchronous lists so far
+fn render_stmt(t: &str, nasync: &mut usize) -> Option<String> {
+    let ws: Vec<&str> = t.split_whitespace().collect();
+    let num = |w: &str| w.parse::<u32>().ok().filter(|n| *n < 256);
+    Some(match ws.as_slice() {
+        ["pf1"] => "set -o pipefail".to_string(),
+        ["pf0"] => "set +o pipefail".to_string(),
+        ["p", ms @ ..] if ms.len() >= 2 => render_members(ms)?,
+        ["np", ms @ ..] if ms.len() >= 2 => format!("! {}", render_members(ms)?),
+        ["bg", ms @ ..] => {
+            *nasync += 1;
+            format!("{} & j{}=$!", render_members(ms)?, *nasync)
+        }
+        ["wj", ks @ ..] if !ks.is_empty() => {
+            let v: Option<Vec<String>> =
+                ks.iter().map(|k| k.parse::<u32>().ok().map(|k| format!("$j{k}"))).collect();
+            format!("wait {}", v?.join(" "))
+        }
+        ["w"] => "wait".to_string(),
+        ["wu"] => "wait 9999".to_string(),
+        ["g", n] => format!("( exit {} )", num(n)?),
+        ["gg", n] => format!("( ( exit {} ) )", num(n)?),
+        ["gp", ms @ ..] if ms.len() >= 2 => format!("( {} )", render_members(ms)?),
+        ["gb", n] => format!("( st {} & wait $! )", num(n)?),
+        ["gw", a, b] => format!("( st {} & st {} & wait )", num(a)?, num(b)?),
+        ["q", n] => format!("x=$( exit {} )", num(n)?),
+        ["qe", w, n] if w.chars().all(|c| c.is_ascii_lowercase()) && !w.is_empty() => {
+            format!("x=$( echo {w}; exit {} )", num(n)?)
+        }
+        ["qq", n] => format!("x=$( y=$( exit {} ) )", num(n)?),
+        ["qb", n] => format!("x=$( st {} & wait $! )", num(n)?),
+        _ => return None,
+    })
+}
+
+fn render(prog: &str) -> Option<String> {
+    let mut nasync = 0usize;
+    let mut out = String::new();
+    for t in prog.split(';').map(str::trim).filter(|t| !t.is_empty()) {
+        out.push_str(&render_stmt(t, &mut nasync)?);
+        out.push_str("\nprobe \"$!\" \"$x\"\n");
+    }
+    Some(out)
+}
+
+/// canonical observation of one run (see the file comment)
+fn observe(o: &RunOut) -> String {
+    if o.stuck {
+        return "TIMEOUT".into();
+    }
+    let text = String::from_utf8_lossy(&o.stdout).into_owned();
+    let mut bangs: Vec<String> = vec![];
+    let mut toks: Vec<String> = vec![];
+    for line in text.lines() {
+        let probe = line.split_once(':').filter(|(a, _)| !a.is_empty() && a.chars().all(|c| c.is_ascii_digit()));
+        match probe {
+            Some((st, rest)) => {
+                let fs: Vec<&str> = rest.split(',').collect();
+                let bang = fs.first().copied().unwrap_or("?");
+                let x = fs.get(1).copied().unwrap_or("?");
+                let bang = if bang == "-" {
+                    "-".to_string()
+                } else {
+                    let k = match bangs.iter().position(|b| b == bang) {
+                        Some(k) => k,
+                        None => {
+                            bangs.push(bang.to_string());
+                            bangs.len() - 1
+                        }
+                    };
+                    format!("a{}", k + 1)
+                };
+                let x = if x == "-" { "-".to_string() } else { dec_str(x).unwrap_or_else(|| "?".into()) };
+                toks.push(format!("{st}/{bang}/{x}"));
+            }
+            None => toks.push(format!("o:{line}")),
+        }
+    }
+    format!("{} st={} z={}", toks.join(" "), o.status, o.zombies)
+}
+
+// ------------------------------------------------------------------------------------------
+// generator
+
+const STATUSES: [u32; 8] = [0, 0, 1, 2, 3, 7, 42, 255];
+const WORDS: [&str; 4] = ["hi", "abc", "x", "hello"];
+
+fn gen_members(r: &mut Rng, n: usize, allow_echo: bool) -> Vec<String> {
+    // `allow_echo = false` is the asynchronous case: no output (it would race with the probes) and no
+    // `cat` (standard input of an asynchronous list is /dev/null, which the virtual file system lacks)
+    // at most one `echo`, followed by `cat`s only (anything else would race on EPIPE)
+    let echo_at = if allow_echo && r.chance(1, 3) { Some(r.below(n)) } else { None };
+    (0..n)
+        .map(|i| match echo_at {
+            Some(e) if i == e => format!("e{}", r.pick(&WORDS)),
+            Some(e) if i > e => "c".to_string(),
+            _ => {
+                let st = *r.pick(&STATUSES);
+                match r.below(10) {
+                    0..=3 => format!("s{st}"),
+                    4..=5 => format!("x{st}"),
+                    6 if allow_echo => "c".to_string(),
+                    6..=8 => format!("g{st}"),
+                    _ => format!("q{st}"),
+                }
+            }
+        })
+        .collect()
+}
+
+/// A race-free program with at most 5 live processes (the shell included).
+fn gen_program(r: &mut Rng, thorough: bool) -> String {
+    let len = 2 + r.below(if thorough { 7 } else { 5 });
+    let mut stmts: Vec<String> = vec![];
+    let mut nasync = 0usize;
+    let mut open: Vec<usize> = vec![]; // jobs not yet waited for
+    let mut live = 0usize; // processes the unwaited jobs may keep alive
+    for _ in 0..len {
+        let st = *r.pick(&STATUSES);
+        let room = 4usize.saturating_sub(live);
+        let choice = r.below(20);
+        let s = match choice {
+            0 => (if r.chance(1, 2) { "pf1" } else { "pf0" }).to_string(),
+            1..=4 if room >= 2 => {
+                let n = 2 + r.below(room.min(4) - 1);
+                format!("{} {}", if r.chance(1, 5) { "np" } else { "p" }, gen_members(r, n, true).join(" "))
+            }
+            5..=7 if room >= 2 => {
+                nasync += 1;
+                open.push(nasync);
+                if room >= 3 && r.chance(1, 3) {
+                    let n = 2;
+                    live += n + 1;
+                    format!("bg {}", gen_members(r, n, false).join(" "))
+                } else {
+                    live += 2;
+                    let m = gen_members(r, 1, false).remove(0);
+                    format!("bg {m}")
+                }
+            }
+            8..=9 if !open.is_empty() => {
+                let i = r.below(open.len());
+                let k = open.remove(i);
+                if open.is_empty() {
+                    live = 0;
+                } else {
+                    live = live.saturating_sub(2);
+                }
+                if !open.is_empty() && r.chance(1, 3) {
+                    let j = r.below(open.len());
+                    let l = open.remove(j);
+                    live = if open.is_empty() { 0 } else { live.saturating_sub(2) };
+                    format!("wj {k} {l}")
+                } else {
+                    format!("wj {k}")
+                }
+            }
+            10 => {
+                open.clear();
+                live = 0;
+                "w".to_string()
+            }
+            11 => {
+                // a job that was waited for already, or a pid that never was a child
+                let done: Vec<usize> = (1..=nasync).filter(|k| !open.contains(k)).collect();
+                if !done.is_empty() && r.chance(2, 3) { format!("wj {}", r.pick(&done)) } else { "wu".to_string() }
+            }
+            12 => format!("g {st}"),
+            13 if room >= 2 => format!("gg {st}"),
+            14 if room >= 3 => format!("gp {}", gen_members(r, 2, true).join(" ")),
+            15 if room >= 2 => {
+                if r.chance(1, 2) { format!("gb {st}") } else { format!("qb {st}") }
+            }
+            16 if room >= 3 => format!("gw {st} {}", r.pick(&STATUSES)),
+            17 => format!("q {st}"),
+            18 => format!("qe {} {st}", r.pick(&WORDS)),
+            19 if room >= 2 => format!("qq {st}"),
+            _ => format!("g {st}"),
+        };
+        stmts.push(s);
+    }
+    if !open.is_empty() {
+        // every asynchronous job is waited for before the shell exits
+        if r.chance(1, 2) {
+            stmts.push("w".to_string());
+        } else {
+            while !open.is_empty() {
+                let i = r.below(open.len());
+                stmts.push(format!("wj {}", open.remove(i)));
+            }
+        }
+    }
+    stmts.join("; ")
+}
+
+const FIXED_PROGRAMS: [&str; 14] = [
+    "bg s3; g 4; wj 1",
+    "bg s1; bg s2; w",
+    "bg s1; bg s2; wj 2; wj 1; wj 1",
+    "p s3 s0; pf1; p s3 s0; p s0 s0; p s1 s2 s0; pf0; p s1 s2 s0",
+    "p ehi c c; p s1 ehi c",
+    "wu; bg x7; wj 1; wj 1; wu",
+    "bg g5; bg q6; wj 1 2",
+    "pf1; bg s2 s0; bg s0 s0; wj 1; wj 2",
+    "gw 1 2; gb 3; qb 4; gg 5; qq 6",
+    "gp s1 s0; pf1; gp s1 s0; gp g2 q0",
+    "np s0 s0; np s1 s1; np s1 s0",
+    "qe hi 3; q 0; qe abc 0",
+    "bg s1; p s2 s3; bg s4; g 5; wj 2; q 6; wj 1",
+    "bg s9; bg s8; bg s7; p c c; w; wj 2",
+];
+
+// ------------------------------------------------------------------------------------------
+// exploration
+
+struct Explorer {
+    depth: usize,
+    max_dfs: usize,
+    random: usize,
+}
+
+/// Runs one (program, schedule) pair and prints its line.  `first` holds the observation of the first
+/// schedule of this program.
+fn run_case(prog: &str, script: &str, chooser: Chooser, first: &mut Option<String>) -> Vec<(u8, u8)> {
+    let mut taken = vec![];
+    let mut oracle = String::new();
+    let mut case = String::new();
+    let obs = guarded(|| {
+        let o = run_sched(script, chooser);
+        let obs = observe(&o);
+        taken = o.taken.clone();
+        case = format!("{prog} @ {}", digits(&o.taken));
+        oracle = if o.stuck {
+            "FAIL:TIMEOUT".into()
+        } else if o.zombies != 0 {
+            "FAIL:zombie".into()
+        } else if first.as_ref().is_some_and(|f| *f != obs) {
+            format!("FAIL:schedule-dependent(first={})", first.as_ref().unwrap())
+        } else {
+            "ok".into()
+        };
+        obs
+    });
+    if case.is_empty() {
+        case = format!("{prog} @ ?");
+        oracle = "FAIL:panic".into();
+    }
+    if first.is_none() {
+        *first = Some(obs.clone());
+    }
+    emit(&case, &obs, &oracle);
+    taken
+}
+
+/// DFS over the first `depth` scheduling choices (continuation: lowest task first), then seeded random
+/// schedules.
+fn explore(prog: &str, ex: &Explorer, seed: u64) {
+    let Some(script) = render(prog) else {
+        emit(&format!("{prog} @ -"), "bad-case", "-");
+        return;
+    };
+    let mut first: Option<String> = None;
+    let mut prefix: Vec<u8> = vec![];
+    let mut runs = 0usize;
+    loop {
+        let taken = run_case(prog, &script, Chooser { prefix: prefix.clone(), rng: None, taken: vec![] }, &mut first);
+        runs += 1;
+        if runs >= ex.max_dfs {
+            break;
+        }
+        // next prefix: increment the deepest choice (within the depth bound) that has an alternative left
+        let mut p: Vec<(u8, u8)> = taken.into_iter().take(ex.depth).collect();
+        loop {
+            match p.pop() {
+                None => break,
+                Some((c, n)) if c + 1 < n => {
+                    p.push((c + 1, n));
+                    break;
+                }
+                Some(_) => {}
+            }
+        }
+        if p.is_empty() {
+            break;
+        }
+        prefix = p.iter().map(|(c, _)| *c).collect();
+    }
+    for k in 0..ex.random {
+        let rng = Rng::new(seed ^ 0xC13_0000 ^ ((k as u64) << 32) ^ 0x5bd1e995);
+        run_case(prog, &script, Chooser { prefix: vec![], rng: Some(rng), taken: vec![] }, &mut first);
+    }
+}
+
 fn main() {
     let opts = Opts::from_args();
     quiet_panics();
-    // debugging aid: `c13 --script 'text' [--sched digits | --rand seed]`
-    if let Some(p) = opts.extra.iter().position(|a| a == "--script") {
-        let script = opts.extra[p + 1].clone();
-        let get = |k: &str| opts.extra.iter().position(|a| a == k).map(|i| opts.extra[i + 1].clone());
+    // debugging aid: `c13 --script 'text' [--sched digits | --rand seed]`, `c13 --render 'program'`
+    let get = |k: &str| opts.extra.iter().position(|a| a == k).map(|i| opts.extra[i + 1].clone());
+    if let Some(p) = get("--render") {
+        println!("{}", render(&p).unwrap_or_else(|| "bad-case".into()));
+        return;
+    }
+    if let Some(script) = get("--script") {
         let chooser = Chooser {
             prefix: get("--sched").map(|s| parse_digits(&s)).unwrap_or_default(),
             rng: get("--rand").map(|s| Rng::new(s.parse().unwrap())),
@@ -326,5 +647,52 @@ fn main() {
         );
         return;
     }
-    let _ = (dec_str("-"), emit as fn(&str, &str, &str), guarded::<fn() -> String>);
+
+    // corpus / replay: exact (program, schedule) pairs; each compared with the FIFO-like schedule `-`
+    let (fixed, only) = opts.fixed_cases();
+    for case in &fixed {
+        let (prog, sched) = match case.split_once('@') {
+            Some((p, s)) => (p.trim().to_string(), s.trim().to_string()),
+            None => (case.trim().to_string(), "-".to_string()),
+        };
+        let Some(script) = render(&prog) else {
+            emit(case, "bad-case", "-");
+            continue;
+        };
+        // reference observation: the schedule that always picks the lowest task (not printed)
+        let mut first: Option<String> = None;
+        let _ = guarded(|| {
+            let o = run_sched(&script, Chooser { prefix: vec![], rng: None, taken: vec![] });
+            first = Some(observe(&o));
+            String::new()
+        });
+        run_case(&prog, &script, Chooser { prefix: parse_digits(&sched), rng: None, taken: vec![] }, &mut first);
+    }
+    if only {
+        return;
+    }
+
+    let thorough = opts.thorough();
+    let ex = if thorough {
+        Explorer { depth: 12, max_dfs: 1500, random: 200 }
+    } else {
+        Explorer { depth: 6, max_dfs: 40, random: 12 }
+    };
+    let mut rng = Rng::new(opts.seed ^ 0x00C1_3C13);
+    let nprog = if thorough { 400 } else { 70 };
+    let mut index = 0usize;
+    let mut progs: Vec<String> = FIXED_PROGRAMS.iter().map(|s| s.to_string()).collect();
+    while progs.len() < nprog {
+        let p = gen_program(&mut rng, thorough);
+        if !progs.contains(&p) {
+            progs.push(p);
+        }
+    }
+    for p in &progs {
+        // whole programs are sharded (the oracle compares the schedules of one program)
+        if index % opts.shard.1 == opts.shard.0 {
+            explore(p, &ex, opts.seed.wrapping_add(index as u64));
+        }
+        index += 1;
+    }
 }
